@@ -203,3 +203,5 @@ lemma("joinr_frame", [xs_, ys_, i_, j_], Imp(And(0 <= i_, j_ <= Len(xs_)), joinr
 lemma("joinr_snoc", [xs_, b_], join(z3.Concat(xs_, z3.Unit(b_))) == z3.Concat(join(xs_), b_),
       patterns=[join(z3.Concat(xs_, z3.Unit(b_)))], uses=["joinr_frame"],
       use_inst=[("joinr_frame", [xs_, z3.Unit(b_), z3.IntVal(0), Len(xs_)])])
+lemma("b2i_bound", [b_], b2i(b_) < pow2(8 * Len(b_)), patterns=[b2i(b_)], induct=("len", b_), uses=["pow2_8"],
+      use_inst=[("pow2_8", [8 * (Len(b_) - 1)])])
